@@ -117,6 +117,18 @@ func (w *Writer) Finish(imports []string, caseType, checkFn string) error {
 	if nsh < 1 {
 		nsh = 1
 	}
+	// keep every case file small enough for coqc to digest in about a gigabyte: at most ~6 MB of
+	// case terms per shard (the evaluation pool of ./check runs as many shards at once as fit)
+	total := 0
+	for _, c := range w.Res.Cases {
+		total += len(c.Coq)
+	}
+	if need := (total + (6<<20 - 1)) / (6 << 20); need > nsh {
+		nsh = need
+		if nsh > 512 {
+			nsh = 512
+		}
+	}
 	if nsh > len(w.Res.Cases) {
 		nsh = len(w.Res.Cases)
 	}
